@@ -14,7 +14,11 @@ func genC06(tier string, rng *RNG, w *CaseWriter) {
 	oFaults := []ocspBehav{{Kind: "transport"}, {Kind: "timeout"}, {Kind: "http404"}, {Kind: "http500"}, {Kind: "http302"}, {Kind: "http500-good-body"}, {Kind: "http201-good-body"}, {Kind: "empty"},
 		{Kind: "truncated"}, {Kind: "oversized"}, {Kind: "garbage"}, {Kind: "readerr"}, {Kind: "canned-unauthorized"}, {Kind: "canned-malformed"},
 		{Kind: "canned-internal"}, {Kind: "canned-trylater"}, {Kind: "canned-sigrequired"}, {Kind: "badurl"}, {Kind: "scheme"}, {Kind: "emptyurl"}, {Kind: "blankurl"}, oStale, oForged,
-		respB("issuer", 0, "absent", "none")}
+		respB("issuer", 0, "absent", "none"),
+		// an authentic, current Good answer about ANOTHER certificate of the issuer (a misrouted body); siblings that are not authorised responders
+		{Kind: "resp", Signer: "issuer", Serial: "other", Status: 0, Next: "+1h", Inv: "none"},
+		{Kind: "resp", Signer: "delegate-othereku", Serial: "match", Status: 0, Next: "+1h", Inv: "none"},
+		{Kind: "resp", Signer: "sibling-issuer-name", Serial: "match", Status: 0, Next: "+1h", Inv: "none"}}
 	oGenuine := []ocspBehav{oGood, oRevoked, oUnknown}
 	cFaultKinds := []string{"503", "404", "302", "empty", "garbage", "truncated", "transport", "timeout", "readerr", "delta-nonhttp", "delta-unreachable", "delta-ext-malformed", "500-valid-crl", "404-valid-crl", "201-valid-crl"}
 	cInvalid := []dpBehav{dpByName("expired"), dpByName("wrong-signer"), dpByName("no-nextupdate"), dpByName("bad-signature"), dpByName("crit-ext"), dpByName("delta-number-equal")}
@@ -111,6 +115,22 @@ func genC06(tier string, rng *RNG, w *CaseWriter) {
 			emitRev(w, mkCase(0, []cplan{{srcPlan: srcPlan{O: []ocspBehav{oGood}}}, {srcPlan: srcPlan{C: []dpBehav{ff}, CKinds: []string{sch}}, faults: []string{""}}}, time.Time{}, http, "", ""), true, "crl-scheme:"+sch)
 		}
 	}
+	// two distribution points whose URLs differ only in the letter case of the path, with a real (in-memory) cache: they are
+	// two sources; a fault on either is a fault
+	for _, fk := range []string{"503", "garbage", "transport"} {
+		for _, order := range [][2]string{{"", fk}, {fk, ""}} {
+			bs := []dpBehav{dpByName("clean"), dpByName("clean")}
+			for i, f := range order {
+				if f != "" {
+					bs[i] = dpByName("fetch-fail")
+				}
+			}
+			for _, cache := range []string{"mem", ""} {
+				emitRev(w, mkCase(0, []cplan{{srcPlan: srcPlan{C: bs, CKinds: []string{"", "casevariant"}}, faults: []string{order[0], order[1]}}}, time.Time{}, true, cache, ""), true, "crl-url-case-variant")
+			}
+		}
+	}
+	emitRev(w, mkCase(0, []cplan{{srcPlan: srcPlan{C: []dpBehav{dpByName("clean"), dpByName("lists-cert")}, CKinds: []string{"", "casevariant"}}, faults: []string{"", ""}}}, time.Time{}, true, "mem", ""), true, "crl-url-case-variant")
 	for _, cache := range caches[2:] {
 		for _, b := range append(append([]dpBehav{}, cGenuine...), cInvalid[0], dpByName("fetch-fail")) {
 			f := ""
